@@ -1,7 +1,7 @@
 LIBS = ["libvpsc", "libcola", "libavoid", "libtopology", "libdialect"]
 HARNESS = "harness/c19.cpp"
 DRIVER_MODE = "c19"
-LEAN_MODULES = ["AdaptaVerif.Props.C19", "AdaptaVerif.Props.C19Layout"]
+LEAN_MODULES = ["AdaptaVerif.Props.C19", "AdaptaVerif.Props.C19Layout", "AdaptaVerif.Props.C19Planarise"]
 LEVEL = "proof"
 LEVEL_TEXT = ("Lean 4 theorems about an executable model of dialect::peel and Graph::getConnComps "
               "(partition of nodes/edges, trees connected and acyclic, core without degree-1 nodes, "
